@@ -13,6 +13,7 @@
 (*   NewOp    - Operator(...)                                              *)
 (*   ApplyOp  - the same Operator object applied again                     *)
 (*   Eq       - state == state                                             *)
+(*   Edit     - a fact added to / removed from a State in place            *)
 (* `apply' is `copy, then write the effects into the copy in place', as in *)
 (* the implementation.  Mode selects how sharing is handled:               *)
 (*   "correct"     every container of a copy is fresh                      *)
@@ -124,8 +125,19 @@ ApplyOp(o, h, allow) ==
            /\ hist' = Append(hist, [c |-> "ApplyOp", op |-> o, s |-> h, allow |-> allow, exc |-> FALSE, h |-> n])
            /\ UNCHANGED oobj
 
+\* a State object changed in place through its public containers: by contract the handle denotes the
+\* edited value from then on - and no other handle may notice
+Atoms == {<<pr, <<o>>>> : pr \in Preds, o \in Objs}
+Edit(h, f) ==
+  LET cell == sobj[h].grp[f[1]]
+      add == f \notin heap[cell]
+  IN  /\ heap' = [heap EXCEPT ![cell] = IF add THEN @ \cup {f} ELSE @ \ {f}]
+      /\ want' = [want EXCEPT ![h] = [@ EXCEPT !.facts = IF add THEN @ \cup {f} ELSE @ \ {f}]]
+      /\ hist' = Append(hist, [c |-> "Edit", s |-> h, how |-> (IF add THEN "add" ELSE "remove"), fact |-> f])
+      /\ UNCHANGED <<next, sobj, oobj>>
+
 Eq(a, b) ==
-  /\ hist' = Append(hist, [c |-> "Eq", a |-> a, b |-> b, val |-> (Val(a) = Val(b))])
+  /\ hist' = Append(hist, [c |-> "Eq", a |-> a, b |-> b, val |-> (Val(a) = Val(b)), exp |-> (want[a] = want[b])])
   /\ UNCHANGED <<heap, next, sobj, oobj, want>>
 
 Next ==
@@ -135,13 +147,14 @@ Next ==
      \/ \E c \in Calls : NewOp(c)
      \/ \E o \in DOMAIN oobj, h \in DOMAIN sobj, al \in BOOLEAN : ApplyOp(o, h, al)
      \/ \E a, b \in DOMAIN sobj : Eq(a, b)
+     \/ \E h \in DOMAIN sobj, f \in Atoms : Edit(h, f)
 Spec == Init /\ [][Next]_vars
 
 ----------------------------------------------------------------------------
 \* every handle ever returned denotes the value the semantics dictates, for ever
 Faithful == \A h \in DOMAIN sobj : Val(h) = want[h]
 \* == is an equivalence that agrees with the values
-EqSound == \A i \in DOMAIN hist : hist[i].c = "Eq" => (hist[i].val <=> want[hist[i].a] = want[hist[i].b])
+EqSound == \A i \in DOMAIN hist : hist[i].c = "Eq" => (hist[i].val <=> hist[i].exp)
 \* containers are never shared between two state handles (the design rule that makes Faithful hold)
 NoSharing == \A a, b \in DOMAIN sobj : a # b =>
   {sobj[a].grp["p"], sobj[a].grp["q"], sobj[a].g} \cap {sobj[b].grp["p"], sobj[b].grp["q"], sobj[b].g} = {}
